@@ -5,6 +5,12 @@ proof side : lean/Heph/Props/C11.lean — for the MODELLED languages (registry h
              histories (`visit_state`, `history_independent`, `is_sam_never`, …), plus the write-set
              theorems over the table regenerated on every run from src/translators/*.py
              (`translators_write_self_only`, `reset_complete_partial`).
+             Groovy (lean/Heph/Props/C11Groovy.lean, imported by C11.lean, namespace Heph.Props.C11.Groovy, model
+             lean/Heph/Model/TransGroovy.lean = port of src/translators/groovy.py): `Groovy.visit_state` (every visit
+             hands all attributes back; no leaking node), `Groovy.reset_state_exact`, `Groovy.visit_program_state`,
+             `Groovy.visit_program_resets`, `Groovy.program_state_independent`, `Groovy.history_independent`,
+             `Groovy.translate_twice`, `Groovy.forgets_any_state`, and three counterexample theorems whose witnesses
+             harness/c11_groovy.py replays on the real GroovyTranslator and on the model.
 tie to code: a pipeline plugin (harness/c11_plugin.py) translates every explored program (stages gen,
              erase, overwrite of real pipeline runs) with the REAL translators of all four languages
              under H histories, inside the worker, and records
@@ -15,6 +21,9 @@ tie to code: a pipeline plugin (harness/c11_plugin.py) translates every explored
              and this check compares, for every language with a Lean model,
                (5) model text (fresh object, and after the history [pool0, pool1, p]) = real text
                (6) top-level declarations visited from three hand-set states: texts and final state
+                   (Kotlin: ident/is_unit/is_lambda/_cast_integers; Groovy: ident/is_unit/_cast_number/_inside_is/
+                   _inside_is_function/_namespace — registry key `visit_states`; compared are `_children_res` and,
+                   for Groovy, all of `state_attrs` incl. `_main_children`, `_main_method`)
                (7) model state after a history = the real object's attributes
                (8) `tu.is_sam` on every class = model's answer (= False, theorem is_sam_never)
              and replays the witnesses of the counterexample theorems and of finding 14 on the real code.
@@ -359,6 +368,9 @@ def check(run):
     # witnesses first (corpus)
     witness_block_super(run)
     witness_finding14(run)
+    if "groovy" in MODELS:
+        import c11_groovy
+        c11_groovy.replay_witnesses(run)
 
     nprog, hist, cap, budget = (40, 5, 100, 100) if quick else (1000, 12, 150, 1500)
     depths = [3, 4, 4, 5, 5, 6] if quick else [4, 5, 5, 6, 6, 7]
@@ -391,6 +403,11 @@ def replay(run, rp):
     if rp.get("witness") == "finding14":
         witness_finding14(run)
         run.cov["rule"] = "replay of the finding-14 class table"
+        return
+    if str(rp.get("witness", "")).startswith("Groovy."):
+        import c11_groovy
+        c11_groovy.replay_witnesses(run, only=rp["witness"])
+        run.cov["rule"] = "replay of a Groovy counterexample witness"
         return
     if rp.get("witness") == "visit_restores_counterexample":
         witness_block_super(run)
